@@ -51,6 +51,13 @@ def init_interwiki_map(wtp: "Wtp") -> None:
 
 
 def get_interwiki_map(wtp: "Wtp") -> dict[str, dict[str, Union[str, bool]]]:
+    import sqlite3
+
+    try:
+        rows = wtp.db_conn.execute("SELECT * FROM interwiki_maps").fetchall()
+    except sqlite3.OperationalError:
+        # The table is only created when a dump is processed
+        return {}
     return {
         prefix: {
             "prefix": prefix,
@@ -63,9 +70,7 @@ def get_interwiki_map(wtp: "Wtp") -> dict[str, dict[str, Union[str, bool]]]:
             "isTranscludable": False,
             "isExtraLanguageLink": False,
         }
-        for (prefix, url, protorel, local) in wtp.db_conn.execute(
-            "SELECT * FROM interwiki_maps"
-        )
+        for (prefix, url, protorel, local) in rows
     }
 
 
